@@ -961,6 +961,12 @@ class Interp:
                 return Float(z3.fpNaN(z3.Float64()))
             if name == "INFINITY":
                 return Float(z3.fpPlusInfinity(z3.Float64()))
+            if name == "NEG_INFINITY":
+                return Float(z3.fpMinusInfinity(z3.Float64()))
+            consts = {"EPSILON": 2.220446049250313e-16, "MAX": 1.7976931348623157e308, "MIN": -1.7976931348623157e308,
+                      "MIN_POSITIVE": 2.2250738585072014e-308}
+            if name in consts:
+                return Float(z3.FPVal(consts[name], z3.Float64()))
         if name in self.p.fns and ty not in self.p.structs and ty not in self.p.enums:
             # module-qualified free function, e.g. crate::eval::foo
             return FnRef("user", self.p.fns[name], name)
